@@ -22,8 +22,8 @@ HG_KIT = core.register(core.Kit(
                          "Rich": "FALSE", "WithFreeze": "TRUE"},
         "quick": {"NN": 2, "EdgeIds": "{0, 1, 100}", "MaxUid": 2, "MaxEdges": 2, "MaxAttr": 0, "MaxLevel": 99,
                   "Rich": "FALSE", "WithFreeze": "FALSE"},
-        "thorough": {"NN": 2, "EdgeIds": "{0, 1, 100}", "MaxUid": 2, "MaxEdges": 2, "MaxAttr": 1, "MaxLevel": 99,
-                     "Rich": "TRUE", "WithFreeze": "TRUE"},
+        "thorough": {"NN": 3, "EdgeIds": "{0, 100}", "MaxUid": 2, "MaxEdges": 2, "MaxAttr": 0, "MaxLevel": 99,
+                     "Rich": "FALSE", "WithFreeze": "FALSE"},
     },
     invariants=["InvIntegrity", "InvUidFresh"],
     properties=["PropAddsPreserve", "PropAddNodeToEdgePreserve", "PropSwapPreserves", "PropFrozen",
@@ -43,7 +43,7 @@ DHG_KIT = core.register(core.Kit(
         "quick": {"NN": 2, "EdgeIds": "{0, 1, 100}", "MaxUid": 2, "MaxEdges": 2, "MaxAttr": 0, "MaxLevel": 99,
                   "Rich": "FALSE", "WithFreeze": "FALSE"},
         "thorough": {"NN": 2, "EdgeIds": "{0, 1, 100}", "MaxUid": 2, "MaxEdges": 2, "MaxAttr": 1, "MaxLevel": 99,
-                     "Rich": "TRUE", "WithFreeze": "TRUE"},
+                     "Rich": "FALSE", "WithFreeze": "FALSE"},
     },
     invariants=["InvDiIntegrity", "InvUidFresh"],
     properties=["PropAddsPreserve", "PropAddNodeToEdgePreserve", "PropFrozen", "PropErrNoChange"],
